@@ -8,6 +8,7 @@ use crate::util::json::J;
 use crate::util::rng::{mix, Rng};
 use crate::Args;
 use rarena_allocator::checksum::{BuildChecksumer, Checksumer, Crc32};
+#[allow(unused_imports)]
 use rarena_allocator::{sync, unsync, Allocator, ArenaPosition, Error, Freelist, Options};
 use std::cell::RefCell;
 use std::rc::Rc;
